@@ -1,10 +1,7 @@
 (* C18 Combined names split and join at the ecosystem separator *)
 Load "coq/props/Hdr".
 From PM Require Import Small.
-Lemma src_rt : rt_ok cfg. Proof. apply conds_rt_ok. vm_compute. reflexivity. Qed.
-Lemma src_tbl : tbl_ok cfg. Proof. apply conds_tbl_ok. vm_compute. reflexivity. Qed.
-Lemma src_cfg_ok : cfg_ok cfg. Proof. exact (rt_cfg _ src_rt). Qed.
-Ltac sc := sidecond_with src_rt src_tbl.
+Lemma src_cfg_ok : cfg_ok cfg. Proof. sc. Qed.
 Theorem C18_split : forall t s, combined_split t s =
   match t with
   | Maven => match split_once c_colon s with Some (a, b) => (Some a, b) | None => (None, s) end
